@@ -158,11 +158,15 @@ def envGet (e : Nat) (name : String) : M (Option Obj) := do
     | none => pure none
     | some _ => makeRef e name
 
+/-- `(*Environment).noteLocal`: a function stored in a binding of a non top level frame -/
+def noteLocal (f : Frame) (val : Obj) : Bool := f.localFunc || (decide (f.depth > 0) && isFuncObj val)
+
 /-- `(*Environment).create` -/
 def envCreate (e : Nat) (name : String) (val : Obj) : M Obj := do
   let val ← valueOf val
   modifyFrame e fun f =>
-    { f with store := setStore f.store name val, numSet := if f.depth == 0 then f.numSet + 1 else f.numSet }
+    { f with store := setStore f.store name val, numSet := if f.depth == 0 then f.numSet + 1 else f.numSet,
+             localFunc := noteLocal f val }
   pure val
 
 /-- `(*Environment).functionChanged`: `old` is the previous value of a binding about to be overwritten or deleted.
@@ -183,7 +187,8 @@ def envStoreAt (writer e : Nat) (name : String) (val : Obj) : M Obj := do
   let fr ← getFrame e
   functionChanged writer (lookupStore fr.store name)
   modifyFrame e fun f =>
-    { f with store := setStore f.store name val, numSet := if f.depth == 0 then f.numSet + 1 else f.numSet }
+    { f with store := setStore f.store name val, numSet := if f.depth == 0 then f.numSet + 1 else f.numSet,
+             localFunc := noteLocal f val }
   pure val
 
 /-- the binding `update` writes: the target of the reference when the name is bound to one -/
@@ -210,7 +215,7 @@ def setNoChecks (e : Nat) (name : String) (val : Obj) (create : Bool) : M Obj :=
       let v ← valueOf val
       let fr ← getFrame re
       functionChanged e (lookupStore fr.store rn)
-      modifyFrame re fun f => { f with store := setStore f.store rn v }
+      modifyFrame re fun f => { f with store := setStore f.store rn v, localFunc := noteLocal f v }
       pure val
     | _ => envCreate e name val
 
